@@ -19,7 +19,14 @@ Brignall-Ruskuc-Vatter criterion evaluated from the definitions:
 * Schmerl-Trotter: an 'infinitely many' verdict is also confronted with the reference
   enumeration of the simples of the class: no two consecutive lengths in 4..N may both be empty.
 
-Sub-checks: special, verdict, entry, pin, symmetry, schmerl_trotter  (see run()).
+* history: the ways of asking are also exercised as SEQUENCES of queries in one process (fresh
+  forked process per sequence, so whatever the library remembers between calls is part of the
+  state): all bases that are element-by-element symmetric to each other (same multiset of
+  symmetry classes of the elements) are asked one after the other, forwards and backwards, and
+  every ordered pair of such bases from different symmetry orbits with different reference
+  verdicts is asked on its own; each answer against the reference.
+
+Sub-checks: special, verdict, entry, pin, symmetry, schmerl_trotter, history  (see run()).
 """
 from __future__ import annotations
 
@@ -434,6 +441,89 @@ def shard_cli_subprocess(shard):
     return part
 
 
+def run_isolated(func, *args):
+    """func(*args) in a freshly forked child of this process (which must not have queried the
+    library itself): the child starts from the import-time state of permuta."""
+    import pickle
+    rfd, wfd = os.pipe()
+    pid = os.fork()
+    if pid == 0:
+        code = 0
+        try:
+            os.close(rfd)
+            try:
+                data = pickle.dumps(("ok", func(*args)))
+            except BaseException as exc:  # noqa
+                import traceback
+                data = pickle.dumps(("error", traceback.format_exc()))
+            with os.fdopen(wfd, "wb") as fh:
+                fh.write(data)
+        except BaseException:  # noqa
+            code = 1
+        finally:
+            os._exit(code)
+    os.close(wfd)
+    with os.fdopen(rfd, "rb") as fh:
+        data = fh.read()
+    os.waitpid(pid, 0)
+    if not data:
+        raise HarnessError("isolated child died without an answer")
+    tag, val = pickle.loads(data)
+    if tag == "error":
+        raise HarnessError("isolated child failed:\n" + val)
+    return val
+
+
+HISTORY_ENTRIES = ["simples", "simples_db", "av", "strategy", "cli0"]
+
+
+def ask_sequence(seq, entries):
+    """the answers to: for every basis of the sequence in turn, every way of asking"""
+    return [[observe(e, b) for e in entries] for b in seq]
+
+
+def check_sequence(part, seq, entries, kind):
+    """One history: asked in a fresh process, every answer against the reference.  The recorded
+    case is the prefix of the sequence up to the first wrong answer."""
+    answers = run_isolated(ask_sequence, seq, entries)
+    n = 0
+    for i, (basis, row) in enumerate(zip(seq, answers)):
+        for e, got in zip(entries, row):
+            n += 1
+            exp, detail = expected_for(e, basis)
+            if got != exp:
+                part.violation("history", {"sequence": list(seq[:i + 1]), "entries": list(entries),
+                                           "kind": kind, "pin_horizon": G["pin_depth"]},
+                               dict(detail, basis=basis, entry=e, expected=exp, got=got,
+                                    position_in_sequence=i))
+                return n
+    return n
+
+
+def shard_history(shard):
+    seqs, entries, kind = shard
+    part = Partial()
+    for seq in seqs:
+        n = check_sequence(part, seq, entries, kind)
+        part.add(n, 0)
+        part.bump("history_sequences_" + kind)
+        part.bump("history_answers", n)
+    return part
+
+
+def element_classes(basis):
+    """multiset of the symmetry classes of the elements (NOT the symmetry class of the basis)"""
+    return tuple(sorted(min(R.orbit(p)) for p in basis))
+
+
+def confusable_groups(bases):
+    """the bases grouped by element_classes; each group as dict orbit representative -> members"""
+    groups = {}
+    for b in bases:
+        groups.setdefault(element_classes(b), {}).setdefault(orbit_rep(b), []).append(b)
+    return [groups[k] for k in sorted(groups)]
+
+
 def canon(basis):
     """the basis as a tuple ordered by (length, lexicographic) - the order R.bases produces"""
     return tuple(sorted(basis, key=lambda p: (len(p), p)))
@@ -529,12 +619,12 @@ def run(ctx, only=None):
         "patterns longer than 4 (full verdict) / 6 (special simples), are not explored",
     ]
     need_full = want("verdict") or want("entry") or want("pin") or want("symmetry") \
-        or want("schmerl_trotter")
+        or want("schmerl_trotter") or want("history")
     klist = [4]
     if want("special"):
         klist += [5, 6]
     prepare(ctx, klist, depth if need_full else 0, N if (need_full or want("special")) else 0,
-            need_db=want("entry"))
+            need_db=want("entry") or want("history"))
     ctx.section("reference", families={k: len(v) for k, v in G["members"].items()},
                 pin_horizon=depth, simples_to=N)
 
@@ -606,6 +696,52 @@ def run(ctx, only=None):
               [(1, 3, 0, 2)], [(0, 2, 1), (1, 0, 2)]
         ctx.pmap(shard_cli_subprocess, [(tuple(b),) for b in sub])
         ctx.section("entry", evaluations=ctx.evals - e0)
+    if want("history"):
+        e0 = ctx.evals
+        ref = {}
+
+        def verdict(b):
+            if b not in ref:
+                ref[b] = ref_special(b)[0] and ref_pin(b)[0]
+            return ref[b]
+
+        seqs_group, seqs_pair, seqs_plain = [], [], []
+        ngroups = nmixed = 0
+        for alphabet in (core2, triples):
+            for orbs in confusable_groups(alphabet):
+                ngroups += 1
+                members = sorted(b for v in orbs.values() for b in v)
+                if len(members) < 2:
+                    continue
+                mixed = len({verdict(r) for r in orbs}) > 1
+                if mixed:
+                    nmixed += 1
+                    seqs_group += [members, members[::-1]]
+                    for r1, r2 in itertools.combinations(sorted(orbs), 2):
+                        if verdict(r1) == verdict(r2):
+                            continue
+                        left, right = ([r1], [r2]) if quick else (orbs[r1], orbs[r2])
+                        for b1 in left:
+                            for b2 in right:
+                                seqs_pair += [[b1, b2], [b2, b1]]
+                elif not quick:
+                    seqs_plain.append(members)
+        shards = [([q], HISTORY_ENTRIES, "group") for q in seqs_group]
+        shards += [(c, HISTORY_ENTRIES, "pair") for c in chunked(seqs_pair, 4)]
+        shards += [([q], ["av", "strategy"], "uniform_group") for q in seqs_plain]
+        ctx.pmap(shard_history, shards)
+        ctx.bounds["history"] = {
+            "groups of element-by-element symmetric bases (Bases(2,4) and the all-images triples)": ngroups,
+            "groups whose members have different reference verdicts": nmixed,
+            "whole-group sequences (every member, forwards and backwards), ways of asking "
+            + ",".join(HISTORY_ENTRIES): len(seqs_group),
+            "two-query sequences (both orders) for pairs from different orbits with different "
+            "verdicts, " + ("orbit representatives" if quick else "all images"): len(seqs_pair),
+            "whole-group sequences of the groups with one verdict (av, strategy; thorough only)":
+                len(seqs_plain),
+            "isolation": "one freshly forked process per sequence"}
+        ctx.section("history", sequences=len(seqs_group) + len(seqs_pair) + len(seqs_plain),
+                    evaluations=ctx.evals - e0)
     if want("special"):
         e0 = ctx.evals
         la = long_alphabet(quick)
@@ -653,6 +789,21 @@ def replay(ctx, rec):
             a2 = (observe("special", b2), observe("simples", b2))
         if a1 != a2:
             ctx.violation("symmetry", case, {"answers": [a1, a2]})
+        return
+    if sub == "history":
+        seq = [tuple(tuple(p) for p in b) for b in case["sequence"]]
+        entries = list(case["entries"])
+        G["dbdir"] = os.path.join(ctx.work, "db")
+        os.makedirs(G["dbdir"], exist_ok=True)
+        answers = run_isolated(ask_sequence, seq, entries)
+        for i, (basis, row) in enumerate(zip(seq, answers)):
+            _prepare_single(basis, case["pin_horizon"], True)
+            for e, got in zip(entries, row):
+                exp, detail = expected_for(e, basis)
+                if got != exp:
+                    ctx.violation("history", case, dict(detail, basis=basis, entry=e, expected=exp,
+                                                        got=got, position_in_sequence=i))
+                    return
         return
     basis = tuple(tuple(p) for p in case["basis"])
     entry = case["entry"]
